@@ -334,6 +334,16 @@ def run(ctx):
     # (c') multiplexers: every declaration order of the cases x every way of selecting a case (name, key, default by name / None)
     for comps in batches(G.enum_mux_orders(), 32):
         run_doc(ctx, rep, corr, comps, "enum-mux-orders", rng, 0, values_of=lambda c: G.enum_mux_values(vrng, c))
+    # (c'') BYTE-SIZE structures with explicitly positioned members in every listing order; terminated MIN-MAX objects with values
+    #       around the termination sequence
+    for fam, it in (("enum-struct-layout-orders", G.enum_struct_layout_orders()), ("enum-minmax-terminated", G.enum_minmax_terminated())):
+        fixed, comps = {}, []
+        for c, v in it:
+            if c.name not in fixed:
+                comps.append(c)
+            fixed.setdefault(c.name, []).append(v)
+        for cs in batches(iter(comps), 24):
+            run_doc(ctx, rep, corr, cs, fam, rng, 0, values_of=lambda c, fixed=fixed: fixed[c.name])
     corr.flush()
     # (d) random well-formed composites
     n_docs = 40000 if big else 3200
